@@ -130,6 +130,23 @@ def do_ioctl_text(req):
     return out
 
 
+def do_ioctl_search(req):
+    """every group byte x every direction, with boundary numbers and lengths: the shown _IOC(...) inverts Darwin's packing"""
+    tried = 0
+    for d in (0x20000000, 0x40000000, 0x80000000, 0xc0000000):
+        for g in range(256):
+            for num, ln in ((0, 0), (255, 0x1fff), (1, 4)):
+                w = d | (ln << 16) | (g << 8) | num
+                tried += 1
+                r = do_ioctl_text({'request': w})
+                if r.get('violates'):
+                    return {'tried': tried, 'bound': 'all group bytes x 4 directions x 3 (number, length) pairs',
+                            'found': dict(r, what='ioctl request 0x%08x is shown as %r, which does not invert Darwin\'s _IOC packing' % (w, r.get('text') or r.get('raised')),
+                                          request={'kind': 'ioctl_text', 'request': w})}
+    return {'tried': tried, 'bound': 'all group bytes x 4 directions x 3 (number, length) pairs', 'found': None}
+
+
+HANDLERS['ioctl_search'] = do_ioctl_search
 HANDLERS.update({'enum_iter': do_enum_iter, 'enum_value': do_enum_value, 'flags': do_flags,
                  'decoder_field_names': do_decoder_field_names, 'ioctl_text': do_ioctl_text})
 
@@ -2265,3 +2282,134 @@ def do_arg_fidelity_search(req):
 
 HANDLERS.update({'kd_buf_search': do_kd_buf_search, 'kd_buf_case': do_kd_buf_case, 'flags_search': do_flags_search,
                  'arg_fidelity_search': do_arg_fidelity_search})
+
+
+def do_lookup_robustness_case(req):
+    """a stream of individually well-formed records (lookup records and system calls of one or two threads, in any
+    order) through the trace pipeline and str(): nothing may raise"""
+    import io
+    import struct
+    from pykdebugparser.traces_parser import TracesParser
+    from pykdebugparser.pykdebugparser import PyKdebugParser
+    from spec import container as S
+    codes = _cached_codes()
+    inv = {v: k for k, v in codes.items()}
+    evs = []
+    for name, tid, q, text in req['stream']:
+        data = text.encode().ljust(32, b'\0')[:32] if name in ('VFS_LOOKUP', 'TRACE_STRING_GLOBAL') else struct.pack('<QQQQ', 0, 3, 0, 0)
+        evs.append(_ev_raw(inv[name], tid, q, data))
+    p = TracesParser(codes, {}, {})
+    try:
+        for t in p.feed_generator(iter(evs)):
+            str(t)
+    except BaseException as ex:  # noqa
+        return {'violates': True, 'what': 'feeding %d well-formed records %s raised %s: %s' % (
+            len(evs), [(n, q) for n, _, q, _ in req['stream']], type(ex).__name__, ex)}
+    return {'violates': False}
+
+
+def do_lookup_robustness_search(req):
+    import random
+    rnd = random.Random(req.get('seed', 0))
+    tried = 0
+    texts = ['/a', '/private/var/tmp/some/file', 'x' * 32, 'abcdefgh' * 4, '']
+    directed = [[('VFS_LOOKUP', 5, 0, '/a')], [('VFS_LOOKUP', 5, 2, '/a')], [('VFS_LOOKUP', 5, 0, 'x' * 32), ('VFS_LOOKUP', 5, 2, 'y')],
+                [('BSC_open', 5, 1, ''), ('VFS_LOOKUP', 5, 0, 'mid'), ('VFS_LOOKUP', 5, 2, 'end'), ('BSC_open', 5, 2, '')],
+                [('BSC_open', 5, 1, ''), ('VFS_LOOKUP', 5, 2, 'end'), ('VFS_LOOKUP', 5, 2, 'end'), ('BSC_open', 5, 2, '')],
+                [('BSC_open', 5, 1, ''), ('VFS_LOOKUP', 5, 1, 'abcdefgh' * 4), ('BSC_open', 5, 2, '')],
+                [('BSC_open', 5, 2, '')], [('TRACE_STRING_GLOBAL', 5, 0, 'abcdefgh' * 4)], [('TRACE_STRING_GLOBAL', 5, 2, 'abcdefgh' * 4)],
+                [('TRACE_STRING_GLOBAL', 5, 1, 'abcdefgh' * 4), ('TRACE_STRING_GLOBAL', 5, 2, 'abcdefgh' * 4)]]
+    for st in directed:
+        tried += 1
+        rq = {'kind': 'lookup_robustness_case', 'stream': [list(x) for x in st]}
+        r = do_lookup_robustness_case(rq)
+        if r['violates']:
+            return {'tried': tried, 'bound': 'directed streams', 'found': dict(r, request=rq)}
+    while tried < req.get('budget', 400):
+        n = rnd.randint(1, 7)
+        st = []
+        for _ in range(n):
+            name = rnd.choice(['VFS_LOOKUP', 'VFS_LOOKUP', 'BSC_open', 'BSC_stat64', 'TRACE_STRING_GLOBAL'])
+            st.append([name, rnd.choice([5, 5, 6]), rnd.choice([0, 1, 2, 3]) if name != 'BSC_open' else rnd.choice([1, 2]), rnd.choice(texts)])
+        tried += 1
+        rq = {'kind': 'lookup_robustness_case', 'stream': st}
+        r = do_lookup_robustness_case(rq)
+        if r['violates']:
+            return {'tried': tried, 'bound': '<= 7 records, 2 threads, lookup / string / system-call records with every qualifier', 'found': dict(r, request=rq)}
+    return {'tried': tried, 'bound': '<= 7 records, 2 threads, lookup / string / system-call records with every qualifier', 'found': None}
+
+
+HANDLERS.update({'lookup_robustness_case': do_lookup_robustness_case, 'lookup_robustness_search': do_lookup_robustness_search})
+
+
+def do_darwin_names_search(req):
+    """the names shown for error numbers and for the parameters Darwin names, against spec/darwin.py (refute mode)"""
+    from contracts.decoders import C18_NAMED_PARAMETERS, C18_TABLES
+    from spec import darwin
+    tried = 0
+    for code, nm in sorted(darwin.ERRNO.items()):
+        tried += 1
+        rq = {'kind': 'errno_text_case', 'code': code, 'want': nm}
+        try:
+            r = do_errno_text_case(rq)
+        except BaseException as ex:  # noqa
+            r = {'violates': True, 'what': 'close() failing with error %d raised %s' % (code, type(ex).__name__)}
+        if r['violates']:
+            return {'tried': tried, 'bound': 'every Darwin errno, every named parameter value', 'found': dict(r, request=rq)}
+    for (name, k), cname in sorted(C18_NAMED_PARAMETERS.items()):
+        tried += 1
+        rq = {'kind': 'named_parameter_case', 'decoder': name, 'position': k, 'table': C18_TABLES[cname]}
+        try:
+            r = do_named_parameter_case(rq)
+        except BaseException as ex:  # noqa
+            continue
+        if r['violates']:
+            return {'tried': tried, 'bound': 'every Darwin errno, every named parameter value', 'found': dict(r, request=rq)}
+    return {'tried': tried, 'bound': 'every Darwin errno, every named parameter value', 'found': None}
+
+
+HANDLERS['darwin_names_search'] = do_darwin_names_search
+
+
+def do_window_order_case(req):
+    """C04: the trace a decoder returns carries the delivered window itself - the records from the START up to the END in
+    stream order - also when timestamps run backwards and unrelated records lie in between"""
+    import struct
+    from pykdebugparser.traces_parser import TracesParser
+    codes = _cached_codes()
+    inv = {v: k for k, v in codes.items()}
+    name = req['decoder']
+    text = b'name'.ljust(32, b'\0')
+    shapes = {'retrograde pair': [(name, 1, 900), (name, 2, 100)],
+              'pair with a nested record': [(name, 1, 900), ('MACH_vmfault', 0, 500), (name, 2, 100)],
+              'single': [(name, 0, 50)], 'single flagged both': [(name, 3, 50)]}
+    for label, recs in shapes.items():
+        p = TracesParser(codes, {}, {})
+        evs = [_ev_raw(inv[n], 5, q, text if n.startswith('TRACE_STRING') else struct.pack('<QQQQ', 1, 2, 3, 4), ts=ts) for n, q, ts in recs]
+        t = None
+        try:
+            for e in evs:
+                t = p.feed(e)
+        except BaseException:  # noqa
+            continue            # totality is C07's clause
+        if t is None or not hasattr(t, 'ktraces'):
+            continue
+        kt = list(t.ktraces)
+        want = evs if recs[0][1] in (1,) else evs[-1:]
+        # decoders of multi-record strings keep only the records of their own code: an order-preserving selection that
+        # still begins with the first and ends with the last delivered record
+        pos, ok = 0, True
+        for a in kt:
+            while pos < len(want) and want[pos] is not a:
+                pos += 1
+            if pos == len(want):
+                ok = False
+                break
+            pos += 1
+        if not ok or not kt or kt[0] is not want[0] or kt[-1] is not want[-1]:
+            return {'violates': True, 'what': '%s (%s): the trace carries the records with timestamps %s, the delivered window is %s in stream order' % (
+                name, label, [e.timestamp for e in kt], [e.timestamp for e in want])}
+    return {'violates': False}
+
+
+HANDLERS['window_order_case'] = do_window_order_case
